@@ -23,10 +23,11 @@ type c10Send struct {
 }
 
 type c10Case struct {
-	N       int         `json:"n"`       // plugged ports (one per agent)
-	Cap     int         `json:"cap"`     // incoming and outgoing capacity of every port
-	Drain   string      `json:"drain"`   // how every agent drains its incoming buffer
-	Scripts [][]c10Send `json:"scripts"` // per agent, sent in order
+	N       int         `json:"n"`                 // plugged ports (one per agent)
+	Cap     int         `json:"cap"`               // incoming (and, unless OutCap is set, outgoing) capacity of every port
+	OutCap  int         `json:"out_cap,omitempty"` // outgoing capacity when it differs from the incoming one
+	Drain   string      `json:"drain"`             // how every agent drains its incoming buffer
+	Scripts [][]c10Send `json:"scripts"`           // per agent, sent in order
 }
 
 // Drain patterns. "stall3" and "late8" retrieve nothing until an external
@@ -151,8 +152,14 @@ func runC10(cs c10Case) (string, []lib.Problem) {
 		a.stalled = cs.Drain == "stall3" || cs.Drain == "late8"
 		comp.AddMiddleware(a)
 		comp.DeclarePort("P")
-		a.port = modeling.MakePortBuilder().WithRegistrar(reg).WithComponent(comp).
-			WithSpec(modeling.PortSpec{BufSize: cs.Cap}).Build("P")
+		if cs.OutCap != 0 {
+			// the port builder only makes symmetric ports
+			a.port = messaging.NewPort(comp, cs.Cap, cs.OutCap, comp.Name()+".P")
+			reg.RegisterPort(a.port)
+		} else {
+			a.port = modeling.MakePortBuilder().WithRegistrar(reg).WithComponent(comp).
+				WithSpec(modeling.PortSpec{BufSize: cs.Cap}).Build("P")
+		}
 		comp.AssignPort("P", a.port)
 		pname := a.port.Name()
 		a.port.AcceptHook(&hookFn{fn: func(ctx hooking.HookCtx) {
@@ -379,6 +386,19 @@ func enumC10(c *lib.Ctx, yield func(c10Case) bool) {
 	if c.Thorough() {
 		fams = []c10Fam{{2, 2, 3}, {3, 3, 3}, {4, 2, 3}, {4, 3, 2}, {4, 4, 1}}
 	}
+	// ports whose incoming and outgoing capacities differ
+	for _, f := range []c10Fam{{2, 2, 3}, {3, 2, 2}} {
+		for _, caps := range [][2]int{{1, 2}, {2, 1}, {1, 3}, {2, 4}} {
+			for _, d := range c10Drains {
+				ok := c10Family(f.n, f.senders, f.maxLen, func(s [][]c10Send) bool {
+					return yield(c10Case{N: f.n, Cap: caps[0], OutCap: caps[1], Drain: d, Scripts: s})
+				})
+				if !ok {
+					return
+				}
+			}
+		}
+	}
 	for _, f := range fams {
 		for _, cp := range []int{1, 2} {
 			for _, d := range c10Drains {
@@ -397,7 +417,7 @@ func init() {
 	lib.Register(&lib.Check{
 		ID:    "C10",
 		Level: "exploration",
-		Rule: "one real direct connection (1 GHz) with N = 2..4 plugged ports of capacity {1,2}, one 1 GHz ticking agent per port; every assignment of send scripts (destination = any other agent, ready cycle in 0..2 non-decreasing) " +
+		Rule: "one real direct connection (1 GHz) with N = 2..4 plugged ports of capacity {1,2} (and, for N = 2..3, ports with different incoming/outgoing capacities (1,2) (2,1) (1,3) (2,4)), one 1 GHz ticking agent per port; every assignment of send scripts (destination = any other agent, ready cycle in 0..2 non-decreasing) " +
 			"for the families (N, sending agents, max sends per sender) quick {(2,2,3),(3,2,3),(3,3,2),(4,2,2),(4,4,1)} / thorough {(2,2,3),(3,3,3),(4,2,3),(4,3,2),(4,4,1)} " +
 			"x receiver drain pattern {always, stalled until cycle 3, one message every other cycle, stalled until cycle 8 (system asleep) then always, never}. " +
 			"Oracle = ledger built from the port Send/Recv/RetrieveOutgoing/RetrieveIncoming hooks: every received message was sent, DeepEqual, at the port named by Dst, once; nothing leaves a sender's buffer undelivered; " +
